@@ -36,6 +36,8 @@ type pipeEnd struct {
 	closed  bool // this end closed
 	notify  chan struct{}
 	rdl     time.Time
+	wdl     time.Time
+	blockW  bool
 	peer    *pipeEnd
 	laddr   net.Addr
 	raddr   net.Addr
@@ -98,13 +100,27 @@ func (p *pipeEnd) Read(b []byte) (int, error) {
 }
 
 func (p *pipeEnd) Write(b []byte) (int, error) {
-	p.mu.Lock()
-	if p.closed {
-		p.mu.Unlock()
+	for {
+		p.mu.Lock()
+		if p.closed {
+			p.mu.Unlock()
 
-		return 0, net.ErrClosed
+			return 0, net.ErrClosed
+		}
+		if !p.blockW {
+			p.mu.Unlock()
+
+			break
+		}
+		// the peer has stopped reading: the write blocks until the stream is closed or a write deadline passes
+		if !p.wdl.IsZero() && !p.wdl.After(time.Now()) {
+			p.mu.Unlock()
+
+			return 0, os.ErrDeadlineExceeded
+		}
+		p.mu.Unlock()
+		<-p.notify
 	}
-	p.mu.Unlock()
 	q := p.peer
 	q.mu.Lock()
 	if q.closed {
@@ -139,6 +155,8 @@ func (p *pipeEnd) Close() error {
 func (p *pipeEnd) LocalAddr() net.Addr  { return p.laddr }
 func (p *pipeEnd) RemoteAddr() net.Addr { return p.raddr }
 func (p *pipeEnd) SetDeadline(t time.Time) error {
+	_ = p.SetWriteDeadline(t)
+
 	return p.SetReadDeadline(t)
 }
 
@@ -150,7 +168,14 @@ func (p *pipeEnd) SetReadDeadline(t time.Time) error {
 
 	return nil
 }
-func (p *pipeEnd) SetWriteDeadline(time.Time) error { return nil }
+func (p *pipeEnd) SetWriteDeadline(t time.Time) error {
+	p.mu.Lock()
+	p.wdl = t
+	p.mu.Unlock()
+	p.kick()
+
+	return nil
+}
 func (p *pipeEnd) closedByPeer() bool {
 	p.mu.Lock()
 	defer p.mu.Unlock()
@@ -287,7 +312,7 @@ func newTCPModel(raw json.RawMessage) *tcpModel {
 	tm := &tcpModel{conns: map[string]*tcpRefConn{}, readers: map[string][]*tcpReader{}, t0: time.Now(), gotClosed: map[int][]string{}, everShared: map[int]bool{}}
 	_ = json.Unmarshal(raw, &tm.cfg)
 	tm.lis = &fakeLis{ch: make(chan net.Conn), closed: make(chan struct{}), addr: &net.TCPAddr{IP: net.ParseIP("10.0.0.1").To4(), Port: 7001}}
-	tm.m = NewTCPMuxDefault(TCPMuxParams{Listener: tm.lis, Logger: nopLogger{}, ReadBufferSize: 16})
+	tm.m = NewTCPMuxDefault(TCPMuxParams{Listener: tm.lis, Logger: nopLogger{}, ReadBufferSize: 16, WriteBufferSize: tm.cfg.WriteBuffer})
 	synctest.Wait()
 
 	return tm
@@ -748,6 +773,7 @@ func checkC15(c *runCtx) {
 		depth = 7
 	}
 	vtSearch(c, p, vtSpec{Name: fmt.Sprintf("TCPMuxDefault, all sequences of length <= %d, <= 3 clients of 10 kinds", depth), Model: "tcpmux", Cfg: muxCfg{Depth: depth}, Deadline: dl})
+	vtSearch(c, p, vtSpec{Name: fmt.Sprintf("TCPMuxDefault with a write buffer, all sequences of length <= %d", depth-1), Model: "tcpmux", Cfg: muxCfg{Depth: depth - 1, WriteBuffer: 4096}, Deadline: dl})
 	if os.Getenv("VERIF_VARIANT") == "instr" {
 		b := 4
 		if !c.quick() {
